@@ -192,6 +192,8 @@ let run_scenario id crc retries miso pad fails calls =
   Printf.printf "B %s\n" id;
   (try
     List.iteri (fun k cs ->
+      (* "sw:<csd>" exchanges the card in the simulator's slot: not a driver call *)
+      if String.length cs >= 2 && String.sub cs 0 2 = "sw" then Printf.printf "R %d ok unit\n" k else
       let c = parse_call cs in
       let (r, s') = api oracle_spi o c !s in
       print_trace (List.rev s'.tr);
